@@ -16,6 +16,9 @@ CONSTANTS
   Cancels = {}
   LegacyHoldLocks = TRUE
   LegacyNilLog = FALSE
+  PubRest <- NoRest
+  MutBatchPersistFirst = FALSE
+  MutBatchNoWait = FALSE
   MutPersistOutsideLock = FALSE
 INVARIANTS NoPanic OneUnsettled OneSenderPerPair OnlyOwnTopic BlockingReturn NoStuckCall
 
